@@ -240,8 +240,17 @@ namespace Dune {
           I lower = I(val);
           I upper;
           if(eq<T, cstyle>(T(lower), val, epsilon)) return lower;
-          if(T(lower) > val) { upper = lower; lower--; }
-          else upper = lower+1;
+          // if the neighbour on the other side of val is not representable in I (val just below
+          // the minimum, e.g. -0.5 < val < 0 for an unsigned I, or just above the maximum), lower
+          // is the nearest representable integer; lower-- / lower+1 would wrap or overflow
+          if(T(lower) > val) {
+            if(lower == std::numeric_limits<I>::min()) return lower;
+            upper = lower; lower--;
+          }
+          else {
+            if(lower == std::numeric_limits<I>::max()) return lower;
+            upper = lower+1;
+          }
           if(le<T, cstyle>(val - T(lower), T(upper) - val, epsilon))
             return lower;
           else return upper;
@@ -256,8 +265,17 @@ namespace Dune {
           I lower = I(val);
           I upper;
           if(eq<T, cstyle>(T(lower), val, epsilon)) return lower;
-          if(T(lower) > val) { upper = lower; lower--; }
-          else upper = lower+1;
+          // if the neighbour on the other side of val is not representable in I (val just below
+          // the minimum, e.g. -0.5 < val < 0 for an unsigned I, or just above the maximum), lower
+          // is the nearest representable integer; lower-- / lower+1 would wrap or overflow
+          if(T(lower) > val) {
+            if(lower == std::numeric_limits<I>::min()) return lower;
+            upper = lower; lower--;
+          }
+          else {
+            if(lower == std::numeric_limits<I>::max()) return lower;
+            upper = lower+1;
+          }
           if(lt<T, cstyle>(val - T(lower), T(upper) - val, epsilon))
             return lower;
           else return upper;
